@@ -187,9 +187,23 @@ def shards(tier):
     out += [{'formulas': [F.to_json(f) for f in ls[i:i + 2]], 'long': True} for i in range(0, len(ls), 2)]
     bs = big_set()
     out += [{'formulas': [F.to_json(f) for f in bs[i:i + 4]], 'big': True} for i in range(0, len(bs), 4)]
+    ln = longname_set()
+    out += [{'formulas': [F.to_json(f) for f in ln[i:i + 4]], 'longnames': True} for i in range(0, len(ln), 4)]
     its = int_set()
     out += [{'formulas': [F.to_json(f) for f in its[i:i + 6]], 'ints': True} for i in range(0, len(its), 6)]
     return out
+
+
+def longname_set():
+    """identifiers of about 100 characters and long sub-formulas that differ only far to the right: node names (and their prefixes) are
+    keys of look-up tables inside the online monitor"""
+    px, py, X = F.PX, F.PY, F.X
+    p2, p3 = ('pred', '<=', X, F.C1), ('pred', '>', X, F.C0)
+    base = [('and', px, p2), ('or', ('prev', px), ('prev', p2)), ('since', None, p3, p2), ('and', ('once', (0, 1), px), ('once', (0, 1), p2)),
+            ('iff', ('historically', (1, 2), p3), ('historically', (1, 2), px)), ('implies', ('rise', px), ('rise', p2)), ('xor', ('-', X, F.Y), ('+', X, F.Y))]
+    f1 = ('historically', (0, 2), ('historically', (0, 3), ('once', (1, 2), ('and', px, ('or', py, p2)))))
+    deep = [('since', None, ('and', f1, py), ('or', f1, py)), ('and', ('implies', f1, px), ('prev', ('iff', f1, px))), ('xor', ('once', (0, 1), f1), ('once', (0, 2), f1))]
+    return [F.rename(f) for f in base] + deep + [F.rename(f) for f in dup_formulas()[::9]]
 
 
 INT_VALUES = ((-1, 0, 2), (-1, 2))
